@@ -60,6 +60,7 @@ type Contract struct {
 	Params   []string // explicit parameter names (trusted specs for functions without source names)
 	Used     bool
 	Holds    []HoldsClause // holds <monitor> <owner expr>: the caller holds the lock for the whole call
+	Shell    bool          // an empty contract made up for a critical-section unit: callee preconditions are assumed, not proved
 }
 
 type HoldsClause struct {
